@@ -21,6 +21,7 @@ import EPV.Gen.EosCS_ZD
 import EPV.Gen.EosCS_dZ_deta
 import EPV.Spec.EOS
 import EPV.Tactics
+import EPV.Lemmas.Bridge.EosTac
 
 set_option linter.all false
 
@@ -53,13 +54,11 @@ theorem cs_inverse (γ b ρ : ℝ) (hγ : γ ≠ 1) (hρ : ρ ≠ 0) (hη : b * 
   unfold csZnum at hZ
   constructor
   · intro P
-    simp only [csEOS, epv_tree, epv_cond, epv_leaf, hρ, hη, if_false]
-    generalize b * ρ = η at *
-    field_simp
+    simp only [csEOS]
+    epv_eos_eq
   · intro e
-    simp only [csEOS, epv_tree, epv_cond, epv_leaf, hρ, hη, if_false]
-    generalize b * ρ = η at *
-    field_simp
+    simp only [csEOS]
+    epv_eos_eq
 
 /-- the true ∂e/∂ρ at constant P: the generated derivative of the traced closure -/
 theorem cs_e_hasDerivAt_rho (γ b ρ P : ℝ) (hγ : γ ≠ 1) (hρ : ρ ≠ 0) (hη : b * ρ ≠ 1) (hZ : csZnum (b * ρ) ≠ 0) :
@@ -67,48 +66,45 @@ theorem cs_e_hasDerivAt_rho (γ b ρ P : ℝ) (hγ : γ ≠ 1) (hρ : ρ ≠ 0) 
   have h1 : γ - 1 ≠ 0 := sub_ne_zero.mpr hγ
   have h2 : 1 - b * ρ ≠ 0 := sub_ne_zero.mpr (Ne.symm hη)
   unfold csZnum at hZ
-  set p : EosCS_e.P := { gamma := γ, b := b } with hp
-  have hev : (fun r => EosCS_e.e p r P) =ᶠ[nhds ρ] fun r => EosCS_e.L2.e p r P := by
+  have hev : (fun r => EosCS_e.e { gamma := γ, b := b } r P) =ᶠ[nhds ρ] fun r => EosCS_e.L2.e { gamma := γ, b := b } r P := by
     have hc : ContinuousAt (fun r : ℝ => b * r) ρ := by fun_prop
     filter_upwards [isOpen_ne.mem_nhds hρ, hc.eventually_ne hη] with r hr hr'
-    simp only [hp, epv_tree, epv_cond, hr, hr', if_false]
-  refine (EosCS_e.L2.e_hasDerivAt_rho p ρ P (pow_ne_zero _ h2) ?_).congr_of_eventuallyEq hev
-  simp only [hp]
-  exact mul_ne_zero (mul_ne_zero (div_ne_zero hZ (pow_ne_zero _ h2)) hρ) h1
+    epv_eos_at_leaf
+  epv_eos_have_cert hd : EosCS_e.L2.e_hasDerivAt_rho { gamma := γ, b := b } ρ P
+  exact hd.congr_of_eventuallyEq hev
 
 /-- `de_dP` is ∂e/∂P at constant ρ -/
 theorem cs_de_dP (γ b ρ P : ℝ) (hρ : ρ ≠ 0) (hη : b * ρ ≠ 1) :
     HasDerivAt (fun q => (csEOS γ b).e ρ q) ((csEOS γ b).de_dP ρ P) P := by
-  set p : EosCS_e.P := { gamma := γ, b := b } with hp
-  have hev : (fun q => EosCS_e.e p ρ q) = fun q => EosCS_e.L2.e p ρ q := by
+  have hev : (fun q => EosCS_e.e { gamma := γ, b := b } ρ q) = fun q => EosCS_e.L2.e { gamma := γ, b := b } ρ q := by
     funext q
-    simp only [hp, epv_tree, epv_cond, hρ, hη, if_false]
-  simp only [csEOS, ← hp]
+    epv_eos_at_leaf
+  simp only [csEOS]
   rw [hev]
-  refine (EosCS_e.L2.e_hasDerivAt_pres p ρ P).congr_deriv ?_
-  simp only [hp, epv_tree, epv_cond, epv_deriv, epv_leaf, hρ, hη, if_false]
+  epv_eos_have_cert hd : EosCS_e.L2.e_hasDerivAt_pres { gamma := γ, b := b } ρ P
+  refine hd.congr_deriv ?_
+  epv_eos_eq
 
 /-- `dP_drho`, `dP_de` are the partial derivatives of `P(ρ, e)` -/
 theorem cs_pressure_derivs (γ b ρ e : ℝ) (hρ : ρ ≠ 0) (hη : b * ρ ≠ 1) : (csEOS γ b).PressureDerivsAt ρ e := by
   have h2 : 1 - b * ρ ≠ 0 := sub_ne_zero.mpr (Ne.symm hη)
-  set p : EosCS_P.P := { gamma := γ, b := b } with hp
   constructor
-  · have hev : (fun r => EosCS_P.Pfun p r e) =ᶠ[nhds ρ] fun r => EosCS_P.L2.Pfun p r e := by
+  · have hev : (fun r => EosCS_P.Pfun { gamma := γ, b := b } r e) =ᶠ[nhds ρ] fun r => EosCS_P.L2.Pfun { gamma := γ, b := b } r e := by
       have hc : ContinuousAt (fun r : ℝ => b * r) ρ := by fun_prop
       filter_upwards [isOpen_ne.mem_nhds hρ, hc.eventually_ne hη] with r hr hr'
-      simp only [hp, epv_tree, epv_cond, hr, hr', if_false]
-    refine ((EosCS_P.L2.Pfun_hasDerivAt_rho p ρ e (pow_ne_zero _ h2)).congr_of_eventuallyEq hev).congr_deriv ?_
-    simp only [csEOS, hp, epv_tree, epv_cond, epv_deriv, epv_leaf, hρ, hη, if_false]
-    field_simp
-    ring
-  · have hev : (fun q => EosCS_P.Pfun p ρ q) = fun q => EosCS_P.L2.Pfun p ρ q := by
+      epv_eos_at_leaf
+    epv_eos_have_cert hd : EosCS_P.L2.Pfun_hasDerivAt_rho { gamma := γ, b := b } ρ e
+    refine (hd.congr_of_eventuallyEq hev).congr_deriv ?_
+    simp only [csEOS]
+    epv_eos_eq
+  · have hev : (fun q => EosCS_P.Pfun { gamma := γ, b := b } ρ q) = fun q => EosCS_P.L2.Pfun { gamma := γ, b := b } ρ q := by
       funext q
-      simp only [hp, epv_tree, epv_cond, hρ, hη, if_false]
-    simp only [csEOS, ← hp]
+      epv_eos_at_leaf
+    simp only [csEOS]
     rw [hev]
-    refine (EosCS_P.L2.Pfun_hasDerivAt_sie p ρ e).congr_deriv ?_
-    simp only [hp, epv_tree, epv_cond, epv_deriv, epv_leaf, hρ, hη, if_false]
-    field_simp
+    epv_eos_have_cert hd : EosCS_P.L2.Pfun_hasDerivAt_sie { gamma := γ, b := b } ρ e
+    refine hd.congr_deriv ?_
+    epv_eos_eq
 
 /-- `dZ_deta` is the derivative of the compressibility factor `Z` -/
 theorem cs_dZ_deta (η : ℝ) (hη : η ≠ 1) :
@@ -116,21 +112,20 @@ theorem cs_dZ_deta (η : ℝ) (hη : η ≠ 1) :
   have h2 : 1 - η ≠ 0 := sub_ne_zero.mpr (Ne.symm hη)
   have hev : (fun y => EosCS_Z.Z {} y) =ᶠ[nhds η] fun y => EosCS_Z.L1.Z {} y := by
     filter_upwards [isOpen_ne.mem_nhds hη] with y hy
-    simp only [epv_tree, epv_cond, hy, if_false]
-  refine ((EosCS_Z.L1.Z_hasDerivAt_eta {} η (pow_ne_zero _ h2)).congr_of_eventuallyEq hev).congr_deriv ?_
-  simp only [epv_tree, epv_cond, epv_deriv, epv_leaf, hη, if_false]
-  field_simp
-  ring
+    epv_eos_at_leaf
+  epv_eos_have_cert hd : EosCS_Z.L1.Z_hasDerivAt_eta {} η
+  refine (hd.congr_of_eventuallyEq hev).congr_deriv ?_
+  epv_eos_eq
 
 /-- `deta_drho` is the derivative of the packing fraction `eta` -/
 theorem cs_deta_drho (b ρ : ℝ) (hρ : ρ ≠ 0) :
     HasDerivAt (fun r => EosCS_eta.eta { b := b } r) (EosCS_deta_drho.deta_drho { b := b } ρ) ρ := by
   have hev : (fun r => EosCS_eta.eta { b := b } r) =ᶠ[nhds ρ] fun r => EosCS_eta.L1.eta { b := b } r := by
     filter_upwards [isOpen_ne.mem_nhds hρ] with r hr
-    simp only [epv_tree, epv_cond, hr, if_false]
-  refine ((EosCS_eta.L1.eta_hasDerivAt_rho { b := b } ρ).congr_of_eventuallyEq hev).congr_deriv ?_
-  simp only [epv_tree, epv_deriv, epv_leaf]
-  ring
+    epv_eos_at_leaf
+  epv_eos_have_cert hd : EosCS_eta.L1.eta_hasDerivAt_rho { b := b } ρ
+  refine (hd.congr_of_eventuallyEq hev).congr_deriv ?_
+  epv_eos_eq
 
 /-- what `de_drho` actually computes: called with the arguments swapped, and multiplied by the
 missing factor P, it is ∂e/∂ρ at constant P -/
@@ -141,9 +136,8 @@ theorem cs_de_drho_swapped_times_P (γ b ρ P : ℝ) (hγ : γ ≠ 1) (hρ : ρ 
   have h2 : 1 - b * ρ ≠ 0 := sub_ne_zero.mpr (Ne.symm hη)
   refine (cs_e_hasDerivAt_rho γ b ρ P hγ hρ hη hZ).congr_deriv ?_
   unfold csZnum at hZ
-  simp only [csEOS, epv_tree, epv_cond, epv_deriv, epv_leaf, hρ, hη, if_false]
-  field_simp
-  ring
+  simp only [csEOS]
+  epv_eos_eq
 
 /-- non-vacuity at the class defaults γ = 5/3, b = 1 and a gas at half packing, ρ = 1/2 -/
 example : (csEOS (5/3) 1).InverseAt (1/2) ∧ (csEOS (5/3) 1).PressureDerivsAt (1/2) 1 :=
